@@ -61,6 +61,20 @@ def gen_cases(rng, tier):
         for mode in ("strict", "keep", "drop"):
             ops += ["dec new " + mode, "dec pkt " + tpl.hex(), "dec pkt " + data.hex(), "dec keys"]
         ops += ["dec new strict", "dec pkt " + tpl_k.hex(), "dec pkt " + data_k.hex()]
+        # one collector usually sees MANY templates: before the template under test, send another
+        # template (other id) in each session that mentions the same unknown (enterprise, id) pairs with
+        # a DIFFERENT length - the element created for the first must not leak into the second
+        if any(layout) and rng.random() < 0.5:
+            other = []
+            for ie, u in zip(ies, layout):
+                if u:
+                    ln = rng.choice([x for x in (1, 2, 3, 7, 12, 300, 65535) if x != ie.len])
+                    other.append(G.IE(ie.ent, ie.id, 0, ln, ""))
+                else:
+                    other.append(ie)
+            pre = W.message(dom, 2, W.template_body(tid + 1 if tid < 65535 else 256, other))
+            for base in (0, 5, 10):     # strict, keep, drop sessions
+                ops.insert(base + 1, "dec pkt " + pre.hex())
         inner = any(layout[i] and any(not x for x in layout[:i]) and any(not x for x in layout[i + 1:]) for i in range(k))
         label = "zero-len" if zero else ("all-known" if not any(layout) else ("all-unknown" if all(layout) else "mixed"))
         cases.append(Case(ops, label, inner, True))
@@ -84,7 +98,13 @@ def run(ctx):
     chk_cases = []
     for ci, c in enumerate(cases):
         i = impl[ci]
-        chk_cases.append(Case(["chk c17 %s %s | %s" % (c.ops[1][8:], c.ops[2][8:], " | ".join([i[1], i[2], i[5], i[6], i[9], i[10], i[13], i[14]]))]))
+        # positions of (template, data) in the strict / keep / drop sessions and in the stripped strict session
+        pos = [k for k, o in enumerate(c.ops) if o.startswith("dec new")]
+        def td(start, end):
+            pk = [k for k in range(start, end) if c.ops[k].startswith("dec pkt")]
+            return pk[-2], pk[-1]
+        a = td(pos[0], pos[1]); b = td(pos[1], pos[2]); d = td(pos[2], pos[3]); e = td(pos[3], len(c.ops))
+        chk_cases.append(Case(["chk c17 %s %s | %s" % (c.ops[a[0]][8:], c.ops[a[1]][8:], " | ".join([i[a[0]], i[a[1]], i[b[0]], i[b[1]], i[d[0]], i[d[1]], i[e[0]], i[e[1]]]))]))
     shards = ctx.cores if ctx.tier == "thorough" else min(8, ctx.cores)
     verdicts = exec_cases(ctx.driver, chk_cases, shards=shards)
     dist = G.Counter()
